@@ -33,8 +33,10 @@ Rec(outs, m, h) ==
          rs == [k \in 1..Len(outs) |-> [o |-> outs[k], m |-> m, h |-> h, s |-> 7, t |-> 8]]
          RECURSIVE Cat(_)
          Cat(k) == IF k > Len(rs) THEN <<>> ELSE Render(rs[k]) \o Cat(k + 1)
-     IN /\ file' = b0 \o Cat(1)
-        /\ gh' = GhostAppend(gh0, rs, 1, Len(b0), DirtyTail(TRUE, b0))
+         \* a file that ends inside a line (torn write) gets a line end first, so that the torn line cannot swallow the record
+         b1 == IF DirtyTail(TRUE, b0) THEN b0 \o <<NL>> ELSE b0
+     IN /\ file' = b1 \o Cat(1)
+        /\ gh' = GhostAppend(gh0, rs, 1, Len(b1), DirtyTail(TRUE, b0))
   /\ exists' = TRUE /\ nops' = nops + 1
 
 \* the process dies; any prefix of the file survives
